@@ -140,7 +140,8 @@ def encJsonb (j : Json) : Bytes :=
 /-! ### view: the document a correct tool must report -/
 
 /-- a JSON document as reported: numbers by their exact value (`NumView`), objects as key/value
-lists (order immaterial, keys unique) -/
+lists (order immaterial, keys unique).  `undecodable` is never the view of a document (`Json.view`): it is what a tool's
+answer is read as where it holds a number that denotes nothing (so that such an answer can equal no document's view). -/
 inductive JView where
   | null
   | bool (b : Bool)
@@ -148,6 +149,7 @@ inductive JView where
   | str (s : Bytes)
   | arr (xs : List JView)
   | obj (kvs : List (Bytes × JView))
+  | undecodable
 deriving Repr, Inhabited
 
 mutual
@@ -164,6 +166,21 @@ def viewList : List Json → List JView
 def viewKvs : List (Bytes × Json) → List (Bytes × JView)
   | [] => []
   | (k, v) :: rest => (k, v.view) :: viewKvs rest
+end
+
+mutual
+/-- no `undecodable` leaf anywhere -/
+def JView.decodable : JView → Bool
+  | .undecodable => false
+  | .arr xs => JView.decodableList xs
+  | .obj kvs => JView.decodableKvs kvs
+  | _ => true
+def JView.decodableList : List JView → Bool
+  | [] => true
+  | x :: xs => x.decodable && JView.decodableList xs
+def JView.decodableKvs : List (Bytes × JView) → Bool
+  | [] => true
+  | (_, v) :: rest => v.decodable && JView.decodableKvs rest
 end
 
 end PgVerif.Spec
